@@ -253,3 +253,27 @@ Proof.
   destruct t1; destruct (fold_left _ _ _) as [[igs bs] w]; cbn [fst] in *; exact G.
 Qed.
 Print Assumptions C05_param_wiring_sizes.
+
+(* ------------------------------------------------------------------ "compiling an accepted
+   program completes without an internal panic and the outputs have the size of the return
+   type", for the bit-level semantics (Compile/TSemSafe.v, 2.5 kLoC): for a program that passes
+   the re-checker Wt.v and the boolean side conditions [fns_ok] (type definitions closed and not
+   too deep, integer widths 8/16/32/64, array lengths <= 2^32, indices <= 32 bits, struct
+   patterns with distinct fields and binders, no join built-ins) and [consts_ok], the lowering
+   over Booleans NEVER crashes, on any arguments of the parameters' sizes and for any fuel, and
+   returns exactly size(return type) bits.  With the parametricity / simulation theorems of C01
+   the same then holds for the builder instance, i.e. for the model of compile.rs.
+   [safe_program_ok] is a boolean function evaluated per program by the extracted checker. *)
+From GV Require Import Compile.TSemSafe.
+
+Theorem C05_bit_semantics_never_crashes_and_has_the_declared_shape :
+  forall fuel P args, safe_program_ok P = true ->
+  exists fd, find_fn P (p_main P) = Some fd /\
+    (Forall2 (fun p a => length a = szn P (snd p)) (fn_params fd) args ->
+     match tsem_program fuel P args with
+     | Crash => False
+     | OutOfFuel => True
+     | Ok (_, outs) => length outs = szn P (fn_ret fd)
+     end).
+Proof. exact tsem_program_safe_ok. Qed.
+Print Assumptions C05_bit_semantics_never_crashes_and_has_the_declared_shape.
